@@ -50,8 +50,10 @@ def odml_tuple_export(odml_tuples):
     """
     stream = StringIO()
     # The tuples are separated the same way as all other odml values: a tuple
-    # containing a comma or a double quote is quoted and can be told apart again.
-    csv.writer(stream, dialect="excel", lineterminator="").writerow(
+    # containing a comma, a double quote or a line break is quoted and can be told
+    # apart again. The writer only quotes the line break characters that are part of
+    # its line terminator, so the default terminator is kept and removed afterwards.
+    csv.writer(stream, dialect="excel").writerow(
         ["(%s)" % ";".join(val) for val in odml_tuples])
 
-    return "[%s]" % stream.getvalue()
+    return "[%s]" % stream.getvalue().rstrip("\r\n")
